@@ -11,7 +11,7 @@ CHECKS = {
              'validates guided multi-byte walks call by call (return code, pointer advance, state index, every output cell, hook calls with '
              'snapshots). TLC evaluates the specification for each recorded step, so the binding is exact per step and exhaustive over symbols. Inputs are guided walks plus specification-guided inputs: Cover.tla (TLC, breadth first) yields the shortest input reaching every distinguishable single step (state, symbol cell, successor, result, events, changed outputs - e.g. each out-of-space redirect) of each exported machine, and those are replayed on the binary.',
         note='Programs are the repository corpus plus seeded generated programs (not all programs); data contexts are sampled; steps whose '
-             'arithmetic leaves the modelled 32-bit range are skipped and counted. Trusted: TLC, gcc, the exporter (reads DfaCompileCtx.dfa as data) and the C driver.',
+             'arithmetic is undefined in C are skipped and counted; values beyond 32 bits are evaluated exactly by the limb model NmfuWide. Trusted: TLC, gcc, the exporter (reads DfaCompileCtx.dfa as data) and the C driver.',
         technique='TLA+ machine spec + TLC trace validation (single-step sweeps and call traces)', thorough=True),
     'C02': dict(
         category='model_checking', design_ref='6/C02',
@@ -134,7 +134,7 @@ CHECKS = {
         text='Random typed expression trees (all operators and atoms) are printed with minimal parentheses into assignment / character-append / conditional-action / condition-point positions and compiled by the real compiler. '
              'In the exported machine the expression is replaced by the generator\'s own tree; StepTrace then validates the C binary against NmfuExpr.Eval (C semantics: promotion, usual arithmetic conversions, truncating division, '
              'short-circuit logic, store conversion, bounds-checked indexing) from forced operand contexts and 22 values of $last. A smaller set also goes through Conform.',
-        note='Values beyond signed 32 bits (unsigned 32-bit wrap-around, 64-bit) are outside the TLC integer model: such steps are skipped and counted. Undefined C evaluations are skipped (a driver-side SIGFPE guard keeps the recorder alive).',
+        note='Values beyond signed 32 bits (unsigned 32-bit wrap-around, 64-bit operands, constants of type long) are evaluated exactly by the limb model NmfuWide (self-tested against Python integers by harness/tests/test_wide.py); constants beyond 64 bits are not modelled. Undefined C evaluations are skipped (a driver-side SIGFPE guard keeps the recorder alive).',
         technique='TLC trace validation of C against a TLA+ C-arithmetic evaluator on generator-owned expression trees', thorough=True),
     'C15': dict(
         category='model_checking', design_ref='6/C15',
